@@ -88,9 +88,6 @@ impl Rng {
         ws.len() - 1
     }
 
-    pub fn fork(&mut self) -> Rng {
-        Rng::new(self.next_u64())
-    }
 }
 
 /// FNV-1a 64 over bytes; used for digests and fingerprints (never for decisions).
